@@ -8,8 +8,15 @@
 (* ts and positions, the messages decoded from MsgsBytes by Milvus' own      *)
 (* dispatcher with kind, source index, replicate-id class and equality bits  *)
 (* per field group) and the values returned to the caller.                   *)
+(* "learn" events (the same writer handled a drop-collection / drop-partition *)
+(* / create-partition api event or a drop-database op message; the cfg event  *)
+(* lists the dropped-object seeds given to NewChannelWriter) carry no         *)
+(* obligation of C07 and none is put on them: they are history.  The          *)
+(* contract of every LATER call is the same as without them - in particular   *)
+(* "a downstream error is returned to the caller" has no exception for packs  *)
+(* of objects the writer has recorded as dropped.                             *)
 (* The acceptor binds cfg / last from the log and requires the contract of   *)
-(* C07 in the new state; the design part (Outcome) is not consulted.         *)
+(* C07 in the new state; the design part (Outcome, know) is not consulted.   *)
 EXTENDS WriterRepl, IOUtils, SequencesExt
 
 Traces == ndJsonDeserialize(IOEnv.TRACE_FILE)
@@ -22,6 +29,10 @@ CallWellFormed(c) == /\ c.ch \in Channels
                      /\ Len(c.pack) >= 1
                      /\ \A i \in 1..Len(c.pack) : c.pack[i] \in AllKinds
                      /\ c.fail \in BOOLEAN
+                     /\ c.obj \in ObjNames \cup {"any"}
+                     /\ c.ep \in {"any", "old", "fresh"}
+
+SeedWellFormed(sd) == sd.lvl \in Lvls /\ sd.obj \in ObjNames
 
 TInit == Init /\ tr \in 1..Len(Traces) /\ l = 1
 
@@ -30,15 +41,19 @@ TStep ==
     /\ LET e == Traces[tr].events[l] IN
        IF l = 1
        THEN /\ e.op = "cfg" /\ e.rid \in BOOLEAN /\ e.map \in MapModes
+            /\ \A i \in 1..Len(e.seeds) : SeedWellFormed(e.seeds[i])
             /\ cfg' = [rid |-> e.rid, map |-> e.map]
-            /\ last' = <<>> /\ UNCHANGED handlers
+            /\ last' = <<>> /\ UNCHANGED <<handlers, know>>
+       ELSE IF e.op = "learn"
+       THEN /\ e.kind \in AllLearnKinds /\ e.obj \in ObjNames /\ e.ok \in BOOLEAN
+            /\ last' = <<>> /\ UNCHANGED <<cfg, handlers, know>>
        ELSE /\ e.op \in {"call", "par"}
             /\ Len(e.calls) = (IF e.op = "par" THEN 2 ELSE 1)
             /\ \A k \in 1..Len(e.calls) : CallWellFormed(e.calls[k].c)
             /\ (e.op = "par" => e.calls[1].c.ch # e.calls[2].c.ch)      \* the statement covers different channels only
             /\ last' = e.calls
             /\ handlers' = handlers \cup {e.calls[k].c.ch : k \in 1..Len(e.calls)}
-            /\ UNCHANGED cfg
+            /\ UNCHANGED <<cfg, know>>
     /\ l' = l + 1 /\ tr' = tr /\ hist' = hist
     /\ ContractHolds'
     /\ (Diag => PrintT("AT " \o ToString(Traces[tr].plan) \o " " \o ToString(l)))
